@@ -913,7 +913,12 @@ class TextXVisitor(RRELVisitor):
                             line,
                             col,
                         )
-                    rule = UnorderedGroup(nodes=expr.nodes)
+                    if expr.rule_name.startswith("__asgn"):
+                        # A single assignment in brackets. The assignment is
+                        # the only member of the group.
+                        rule = UnorderedGroup(nodes=[expr])
+                    else:
+                        rule = UnorderedGroup(nodes=expr.nodes)
 
                 if modifiers:
                     modifiers, position = modifiers
